@@ -465,6 +465,9 @@ func convToBasicNumber(source interface{}, target reflect.Type) (interface{}, er
 			}
 		}
 		f, _ := v.Float64()
+		if v.IsInf(0) && v.Signbit() {
+			f = math.Inf(-1) // decimal's Float64 hands back +Inf for both infinities
+		}
 		// float64 cannot hold every integer (9007199254740993 came through as ...992) and
 		// decimal's own Float64 is not correctly rounded: truncate in decimal for integer
 		// targets and convert the decimal text for float targets
